@@ -1,9 +1,112 @@
-//! C04 - see l1.rs (pair level scenarios)
+//! C04 - pair level scenarios in l1.rs; node level (seal log of whole nodes under send errors) here
+use std::collections::{BTreeMap, BTreeSet};
+
 use super::{
     chooser::Chooser,
     l1,
-    runner::{RunCtx, RunOut, Scenario, Tier},
+    mesh::{self, finish, panic_violation},
+    runner::{RunCtx, RunOut, Scenario, Tier, Violation},
+    world::{Step, World},
 };
+use crate::verif::Event;
+
+struct SealLog {
+    seen: BTreeSet<(usize, u64, [u8; 12])>,
+    last: BTreeMap<(usize, u64), [u8; 12]>,
+}
+
+fn after(w: &mut World, log: &mut SealLog, st: &Step) -> Result<(), Violation> {
+    if let Some(v) = panic_violation(w, st, "C04") {
+        return Err(v);
+    }
+    let i = match st.node {
+        Some(i) => i,
+        None => return Ok(()),
+    };
+    for e in &st.probes {
+        if let Event::Seal { key_fp, nonce, .. } = e {
+            w.count("c04_node_level_seals_logged");
+            if !log.seen.insert((i, *key_fp, *nonce)) {
+                return Err(Violation::new("nonce-unique", "key-nonce-pair-reused", format!("n{} sealed a second datagram under key {:016x} with nonce {:02x?}", i, key_fp, nonce)));
+            }
+            if let Some(prev) = log.last.get(&(i, *key_fp)) {
+                if nonce <= prev {
+                    return Err(Violation::new("nonce-unique", "counter-not-increasing", format!("n{} key {:016x}: nonce {:02x?} after {:02x?}", i, key_fp, nonce, prev)));
+                }
+            }
+            log.last.insert((i, *key_fp), *nonce);
+        }
+    }
+    Ok(())
+}
+
+fn drive(w: &mut World, log: &mut SealLog, until: u64) -> Result<(), Violation> {
+    while let Some(st) = w.step(until) {
+        after(w, log, &st)?;
+    }
+    Ok(())
+}
+
+/// Node level: every seal of 2-3 whole nodes (payload, announcements, keepalives, rotation) while the socket refuses
+/// datagrams now and then (EAGAIN, ENETUNREACH, EPERM, EINTR, short write): a refused datagram was sealed all the
+/// same, its nonce is spent.
+fn node_scenario(w: &mut World, _ctx: &RunCtx, states: &mut Vec<u64>) -> Result<(), Violation> {
+    let k = w.add_key(None);
+    let n = 2 + w.ch.choose("third_node", 2) as usize;
+    let fam = w.ch.choose("addr_family", 2) as u8;
+    let cipher = w.ch.pick("cipher", &["aes128", "aes256", "chacha20"]).to_string();
+    for i in 0..n {
+        let mut c = mesh::tun_node(i);
+        c.key = k;
+        c.algorithms = vec![cipher.clone()];
+        c.tick_phase_ms = w.ch.choose("tick_phase", 1000) as u64;
+        for j in 0..i {
+            c.peers.push(mesh::node_text(j, fam));
+        }
+        w.add_node(c, fam);
+    }
+    let mut log = SealLog { seen: BTreeSet::new(), last: BTreeMap::new() };
+    for i in 0..n {
+        let st = w.start_node(i);
+        after(w, &mut log, &st)?;
+    }
+    let pairs = mesh::all_pairs(n);
+    let mut err = None;
+    let ok = mesh::run_until_connected(w, &pairs, 8_000, |w, st| after(w, &mut log, st)).unwrap_or_else(|e| {
+        err = Some(e);
+        false
+    });
+    if let Some(e) = err {
+        return Err(e);
+    }
+    if !ok {
+        w.count("c04_node_level_not_connected");
+        return Ok(());
+    }
+    states.push(mesh::abstract_state(w));
+    w.net.enabled = true;
+    w.net.send_fault_pm = *w.ch.pick("send_error_pm", &[100u32, 300, 600]);
+    let ops = 20 + w.ch.choose("ops", 120);
+    for k in 0..ops {
+        let a = w.ch.choose("from", n as u32) as usize;
+        let b = (a + 1 + w.ch.choose("to", n as u32 - 1) as usize) % n;
+        let f = mesh::ipv4_packet(mesh::tun_ip(a), mesh::tun_ip(b), &(k as u32).to_be_bytes());
+        let at = w.now_ms + 1 + w.ch.choose("gap_ms", 3_000) as u64;
+        w.schedule_frame(at, a, f);
+        drive(w, &mut log, at + 30)?;
+    }
+    w.count("c04_node_level_runs");
+    states.push(mesh::abstract_state(w));
+    Ok(())
+}
+
+fn node_level(seed: u64, ch: Chooser, ctx: &RunCtx) -> RunOut {
+    let mut w = mesh::new_world(seed, ch, ctx);
+    let mut states = vec![];
+    let res = node_scenario(&mut w, ctx, &mut states);
+    let nontrivial = w.counters.get("c04_node_level_seals_logged").copied().unwrap_or(0) > 10;
+    finish(w, res, nontrivial, states)
+}
 
 pub struct C04;
 
@@ -17,6 +120,10 @@ impl Scenario for C04 {
         if ctx.index % 3 == 2 {
             return l1::c05_for(seed, ch, ctx, ctx.index / 3, true);
         }
+        // after the sweeps every twentieth run is a node-level run under send errors
+        if ctx.index >= 3 * 4096 && ctx.index % 20 == 1 {
+            return node_level(seed, ch, ctx);
+        }
         l1::c04(seed, ch, ctx)
     }
 
@@ -28,7 +135,7 @@ impl Scenario for C04 {
     }
 
     fn rule(&self) -> &'static str {
-        "two thirds of the runs: whole connection lifetimes of a real PeerCrypto pair: handshake by one side or both at once with reordered/duplicated handshake datagrams, then 300-1500 ticks per end (thorough: up to 4000; a rotation cycle is 120 ticks) with rotation messages lost, duplicated, reordered and delayed, a probe sealed in both directions after every step; nonce starts shaped to sit 0-299 seals below a carry boundary of 1-6 low bytes in 60 % of the runs; in half of the runs the counter is afterwards placed 1-40 seals below the 56 bit limit. Oracle over the seal log (every encrypt call of both ends): no (key fingerprint, nonce) twice, strictly increasing per (end, key), the two ends of one key use different top bytes, every key's first nonce is exactly what the generator handed out, past the 56 bit limit the peer opens nothing and below it everything. One third of the runs: the two-party handshake schedules of C05 (sweep of all schedules of length 4 / 6 over {A initiates, B initiates, deliver oldest/newest, duplicate, drop, tick A, tick B}, then random schedules with forced re-dials) under the same seal-log oracles plus: the two ends of one key install it with opposite nonce halves. Non-trivial: more than 10 seals were logged or a handshake completed."
+        "two thirds of the runs: whole connection lifetimes of a real PeerCrypto pair: handshake by one side or both at once with reordered/duplicated handshake datagrams, then 300-1500 ticks per end (thorough: up to 4000; a rotation cycle is 120 ticks) with rotation messages lost, duplicated, reordered and delayed, a probe sealed in both directions after every step; nonce starts shaped to sit 0-299 seals below a carry boundary of 1-6 low bytes in 60 % of the runs; in half of the runs the counter is afterwards placed 1-40 seals below the 56 bit limit. Oracle over the seal log (every encrypt call of both ends): no (key fingerprint, nonce) twice, strictly increasing per (end, key), the two ends of one key use different top bytes, every key's first nonce is exactly what the generator handed out, past the 56 bit limit the peer opens nothing and below it everything. One third of the runs: the two-party handshake schedules of C05 (sweep of all schedules of length 4 / 6 over {A initiates, B initiates, deliver oldest/newest, duplicate, drop, tick A, tick B}, then random schedules with forced re-dials) under the same seal-log oracles plus: the two ends of one key install it with opposite nonce halves. After the sweeps every twentieth run is a node-level run: 2-3 real nodes exchange 20-140 packets while their sockets refuse datagrams now and then (EAGAIN, ENETUNREACH, EPERM, EINTR, short write at 10-60 % of the node events); every seal of every node is logged and must be unique and increasing per key - a refused datagram was sealed all the same. Non-trivial: more than 10 seals were logged or a handshake completed."
     }
 
     fn expected_probes(&self) -> Vec<&'static str> {
